@@ -172,6 +172,7 @@ class Executor(HeapMixin, ExprMixin, CallMixin, ContractMixin, StmtMixin):
         c = self.c
         st = State()
         st.spec = False
+        st.hbase = self.H.base
         st.top = self.top0
         st.assume(self.top0 >= 1)
         pnames = [a.arg for a in fd.args.posonlyargs + fd.args.args + fd.args.kwonlyargs]
@@ -316,7 +317,7 @@ class Executor(HeapMixin, ExprMixin, CallMixin, ContractMixin, StmtMixin):
                 return
         env2 = dict(env)
         for nm, val in s.env.items():
-            if nm.startswith("SUMARG"):
+            if nm.startswith(("SUMARG", "SORT", "MAXARG")):
                 env2[nm] = val
         env2["result"] = result
         for name, lem in c.post_lemmas.items():
@@ -329,7 +330,15 @@ class Executor(HeapMixin, ExprMixin, CallMixin, ContractMixin, StmtMixin):
                 env2[wname] = self.fresh_value("anywit_" + wname, parse_kind(wk, self.reg.opaque), s)
             else:
                 env2[wname] = s.env[gv]
+        if not c.allocates:
+            self.oblige(s, "post", "no-allocation", s.top == self.top0, None, note="contract says the unit does not allocate")
         clauses = list(c.ensures.items())
+        if c.proves:
+            lenv = dict(s.env)
+            lenv.update(env2)
+            for lab, txt in c.proves.items():
+                g = self.spec_goal(txt, lenv, s, self.entry_state)
+                self.oblige(s, "post", "proves." + lab, g, None, note=txt)
         if c.overrides:
             ic = self.reg.contracts[c.overrides]
             clauses += [("iface." + k, v) for k, v in ic.ensures.items()]
